@@ -90,6 +90,11 @@ CLAIMS = {
   "note": "NOT decided: the numeric value of any score; float rounding; the PhrasePrefixQuery statistics-provider deviation (observation only).",
   "technique": "who-may-call with signature scan, parameter provenance, value back-trace, impl-map classification",
  },
+ "C13": {
+  "text": "Very narrow: decides three protocol clauses, not what any iterator enumerates. (R1) seek_danger typestate: in every function that probes a sub-docset with seek_danger, a forward may-analysis (VALID / PENDING / MAYBE-INVALID per receiver path, collections collapsed, result branches resolved, complete-pass and restore-pass idioms recognised) shows that a sub-docset that may have answered SeekLowerBound receives nothing but seek_danger — no doc/advance/seek/score/fill_buffer directly, through closures or function items, through callees or through methods of self — until a seek_danger on it answered Found. (R2) a score memo (RequiredOptionalScorer.score_cache, discovered from score()) is stored into by every DocSet method that moves a sub-docset. (R3) pure forwarding DocSet/Scorer methods forward to the method of the same name.",
+  "note": "NOT decided: order and content of the enumerated documents, seek(t) landing on the first doc >= t, window horizons, block boundaries, TERMINATED stickiness, equality of buffered / bitset / counting paths (values over programs of calls). The typestate is per function: the state of an object across separate calls of its methods is the caller's obligation and is checked at the caller.",
+  "technique": "typestate dataflow over MIR CFGs with field-sensitive receiver paths, closure / callee / self-method summaries; natural-loop exit analysis; memo discovery by store+read of a self field in score()",
+ },
  "C14": {
   "text": "Very narrow: decides only the structural part of 'does not depend on partitioning ... after serialisation'. For each of the 18 merge_fruits(&mut self, other: Self) functions of the intermediate aggregation results: every accumulator leaf (struct field / enum variant field, through aggregation types without their own merge) of `other` is read, the same leaf of `self` is written, data from other.<leaf> reaches self.<leaf> (forward taint), collections are consumed by value; bucket-identity and request-parameter leaves are tabled with reasons. merge_maps and IntermediateAggregationResults::merge_fruits pair equal keys and move the unpaired remainder of `other` into `self`. Every type reachable from IntermediateAggregationResults with derived serde impls serialises every field and its deserialiser fills every field from the input. No aggregation value is decided.",
   "note": "NOT decided: equality with a direct computation, bucket arithmetic, float sums, sketch error, term truncation, bucket ordering, segment collectors, final result conversion (values over inputs and partitions).",
@@ -97,7 +102,6 @@ CLAIMS = {
  },
 }
 NA = {
- "C13": "quantifies over values returned by arbitrary advance/seek programs on stateful iterators; failures are arithmetic; the only structural statement (wrapper forwarding) is not a necessary condition, so no sound static rule is in reach",
 }
 # properties not yet claimed (checks under construction) are listed as not applicable *for now*
 for _p, _why in {}.items():
